@@ -529,4 +529,374 @@ theorem sim_runCalls : ∀ (cs : List AnsCall) (d : Nat) (s t : State),
     · rw [hr] at h; cases h
     · rw [hr] at h; cases h
 
+/-! ## the answer phase of the server does not depend on the limit
+
+  `SimP m`: if `m`, started with `d` more octets of room, succeeds, logs only accepted calls (no
+  call failed — in particular no optional one was dropped) and ends within the smaller room, then
+  started with the smaller room it succeeds with the same value, the same log, and the same final
+  writer up to the room. -/
+
+/-- every logged call was accepted, and no header operation failed -/
+def OkEv (e : Ev) : Prop := e ≠ .bad ∧ ∀ x, e = .add x → x.res = .ok ()
+
+def SimP {α} (m : PM α) : Prop :=
+  ∀ (d : Nat) (w : State) (log : List Ev) (a : α) (pt : PS),
+    m ⟨lift d w, log⟩ = (.ok a, pt) → (∀ e ∈ pt.log, OkEv e) → pt.w.cursor ≤ w.available →
+    ∃ ps', m ⟨w, log⟩ = (.ok a, ps') ∧ pt = ⟨lift d ps'.w, ps'.log⟩
+
+/-- on success the cursor only advanced, `available` is untouched and the log only grew -/
+def CAP {α} (m : PM α) : Prop :=
+  ∀ (ps : PS) (a : α) (ps' : PS), m ps = (.ok a, ps') →
+    ps.w.cursor ≤ ps'.w.cursor ∧ ps'.w.available = ps.w.available ∧ ∃ evs, ps'.log = ps.log ++ evs
+
+def SimPF {α} (m : PM α) : Prop := SimP m ∧ CAP m
+
+theorem simPF_pure {α} (a : α) : SimPF (Pure.pure a : PM α) := by
+  refine ⟨?_, ?_⟩
+  · intro d w log b pt h _ _
+    simp only [pure_def] at h ⊢
+    cases h
+    exact ⟨_, rfl, rfl⟩
+  · intro ps b ps' h
+    simp only [pure_def] at h
+    cases h
+    exact ⟨Nat.le_refl _, rfl, [], by simp⟩
+
+theorem simPF_fail {α} (e : PErr) : SimPF (PM.fail e : PM α) :=
+  ⟨fun d w log b pt h _ _ => by simp [PM.fail] at h, fun ps b ps' h => by simp [PM.fail] at h⟩
+
+theorem simPF_panic {α} : SimPF (PM.panic : PM α) :=
+  ⟨fun d w log b pt h _ _ => by simp [PM.panic] at h, fun ps b ps' h => by simp [PM.panic] at h⟩
+
+theorem simPF_bind {α β} {m : PM α} {f : α → PM β} (hm : SimPF m) (hf : ∀ a, SimPF (f a)) : SimPF (m >>= f) := by
+  refine ⟨?_, ?_⟩
+  · intro d w log b pt h hok hc
+    rw [bind_def] at h ⊢
+    rcases hmm : m ⟨lift d w, log⟩ with ⟨(a | e | _), pt1⟩
+    · rw [hmm] at h
+      simp only [] at h
+      obtain ⟨c1, c2, evs2, c3⟩ := (hf a).2 pt1 b pt h
+      have hok1 : ∀ e ∈ pt1.log, OkEv e := fun e he => hok e (by rw [c3]; exact List.mem_append_left _ he)
+      obtain ⟨ps1, hs1, hpt1⟩ := hm.1 d w log a pt1 hmm hok1 (Nat.le_trans c1 hc)
+      obtain ⟨b1, b2, _⟩ := hm.2 ⟨w, log⟩ a ps1 hs1
+      rw [hpt1] at h
+      obtain ⟨ps', hs', hpt⟩ := (hf a).1 d ps1.w ps1.log b pt h hok (by rw [b2]; exact hc)
+      rw [hs1]
+      exact ⟨ps', hs', hpt⟩
+    · rw [hmm] at h; simp at h
+    · rw [hmm] at h; simp at h
+  · intro ps b ps' h
+    rw [bind_def] at h
+    rcases hmm : m ps with ⟨(a | e | _), ps1⟩
+    · rw [hmm] at h
+      simp only [] at h
+      obtain ⟨a1, a2, evs1, a3⟩ := hm.2 ps a ps1 hmm
+      obtain ⟨c1, c2, evs2, c3⟩ := (hf a).2 ps1 b ps' h
+      exact ⟨Nat.le_trans a1 c1, by rw [c2, a2], evs1 ++ evs2, by rw [c3, a3, List.append_assoc]⟩
+    · rw [hmm] at h; simp at h
+    · rw [hmm] at h; simp at h
+
+/-- a header operation that does not look at the room -/
+theorem simPF_hdrOp (ev : Ev) (m : M Unit) (hs : Sim m) (hca : CA m) : SimPF (PM.hdrOp ev m) := by
+  refine ⟨?_, ?_⟩
+  · intro d w log b pt h _ hc
+    unfold PM.hdrOp at h ⊢
+    simp only [] at h ⊢
+    rcases hm : m (lift d w) with ⟨(u | e | _), t⟩
+    · rw [hm] at h
+      simp only [] at h
+      cases h
+      obtain ⟨s', hs', ht⟩ := hs d w () t hm hc
+      rw [hs']
+      exact ⟨_, rfl, by rw [ht]⟩
+    · rw [hm] at h; simp at h
+    · rw [hm] at h; simp at h
+  · intro ps b ps' h
+    unfold PM.hdrOp at h
+    have := hca ps.w
+    rcases hm : m ps.w with ⟨(u | e | _), t⟩
+    · rw [hm] at h this
+      simp only [] at h
+      cases h
+      exact ⟨this.1, this.2, [ev], rfl⟩
+    · rw [hm] at h; simp at h
+    · rw [hm] at h; simp at h
+
+theorem simPF_setAa (b : Bool) : SimPF (PM.setAa b) :=
+  simPF_hdrOp _ _ (by unfold Writer.setAa setBit; exact sim_setHdr _ _) (by unfold Writer.setAa setBit; exact ca_setHdr _ _)
+
+theorem simPF_setRcode (v : Nat) : SimPF (PM.setRcode v) :=
+  simPF_hdrOp _ _ (simF_setRcode v).1 (simF_setRcode v).2
+
+/-- what a record-adding writer call must satisfy: limit-independent; on success the cursor only
+    advances; on failure the state is rolled back -/
+structure AddOp (f : M Unit) : Prop where
+  sim : Sim f
+  ok : ∀ s s', f s = (.ok (), s') → s.cursor ≤ s'.cursor ∧ s'.available = s.available
+  err : ∀ s e s', f s = (.err e, s') → s'.cursor = s.cursor ∧ s'.available = s.available
+
+theorem addOp_rrset (sec : RrSection) (hint : Hint) (owner : WName) (ty cls ttl : Nat) (rds : List (List UInt8)) :
+    AddOp (addRrsetOp sec hint owner ty cls ttl rds) := by
+  refine ⟨sim_addRrsetOp sec hint owner ty cls ttl rds, fun s s' h => ?_, fun s e s' h => ?_⟩
+  · have := addRrsetOp_cases sec hint owner ty cls ttl rds s
+    rw [h] at this
+    obtain ⟨s1, n, e1, _, hs'⟩ := this
+    rw [hs']
+    cases sec <;> exact ⟨e1.cur, e1.available⟩
+  · have := addRrsetOp_cases sec hint owner ty cls ttl rds s
+    rw [h] at this
+    exact ⟨this.cursor, this.available⟩
+
+theorem addOp_rr (sec : RrSection) (hint : Hint) (owner : WName) (ty cls ttl : Nat) (rd : List UInt8) :
+    AddOp (addRrOp sec hint owner ty cls ttl rd) := by
+  refine ⟨sim_addRrOp sec hint owner ty cls ttl rd, fun s s' h => ?_, fun s e s' h => ?_⟩
+  · have := addRrOp_cases sec hint owner ty cls ttl rd s
+    rw [h] at this
+    obtain ⟨s1, e1, _, hs'⟩ := this
+    rw [hs']
+    cases sec <;> exact ⟨e1.cur, e1.available⟩
+  · have := addRrOp_cases sec hint owner ty cls ttl rd s
+    rw [h] at this
+    exact ⟨this.cursor, this.available⟩
+
+theorem simPF_addCall (ev : AddEv) (f : M Unit) (hf : AddOp f) : SimPF (PM.addCall ev (Server.withHv [] f)) := by
+  refine ⟨?_, ?_⟩
+  · intro d w log b pt h hok hc
+    unfold PM.addCall Server.withHv at h ⊢
+    simp only [] at h ⊢
+    have hl : ({ lift d w with hv := some [] } : State) = lift d { w with hv := some [] } := rfl
+    rw [hl] at h
+    rcases hm : f (lift d { w with hv := some [] }) with ⟨(u | e | _), t⟩
+    · rw [hm] at h
+      simp only [] at h
+      cases h
+      obtain ⟨s', hs', ht⟩ := hf.sim d { w with hv := some [] } () t hm hc
+      subst ht
+      rw [hs']
+      exact ⟨_, rfl, rfl⟩
+    · rw [hm] at h
+      simp only [] at h
+      split at h
+      · -- a swallowed `Truncation`: the log then holds a failed call
+        cases h
+        have := hok (.add { ev with res := .err e }) (by simp)
+        exact absurd (this.2 _ rfl) (by simp)
+      · cases h
+    · rw [hm] at h; simp at h
+  · intro ps b ps' h
+    unfold PM.addCall Server.withHv at h
+    simp only [] at h
+    rcases hm : f { ps.w with hv := some [] } with ⟨(u | e | _), t⟩
+    · rw [hm] at h
+      simp only [] at h
+      cases h
+      have := hf.ok _ _ hm
+      exact ⟨this.1, this.2, _, rfl⟩
+    · rw [hm] at h
+      simp only [] at h
+      have := hf.err _ _ _ hm
+      split at h
+      · cases h
+        exact ⟨by rw [this.1]; exact Nat.le_refl _, this.2, _, rfl⟩
+      · cases h
+    · rw [hm] at h; simp at h
+
+theorem simPF_addRrs (opt : Bool) (sec : RrSection) (hint : Hint) (owner : WName) (ty cls ttl : Nat)
+    (rds : List (List UInt8)) : SimPF (PM.addRrs opt sec hint owner ty cls ttl rds) :=
+  simPF_addCall _ _ (addOp_rrset sec hint owner ty cls ttl rds)
+
+theorem simPF_addRr1 (sec : RrSection) (hint : Hint) (owner : WName) (ty cls ttl : Nat) (rd : List UInt8) :
+    SimPF (PM.addRr1 sec hint owner ty cls ttl rd) := by
+  unfold PM.addRr1
+  exact simPF_bind (simPF_addCall _ _ (addOp_rr sec hint owner ty cls ttl rd)) (fun _ => simPF_pure ())
+
+/-! ### the functions of query.rs -/
+
+theorem simPF_readName (rd : List UInt8) (start : Nat) : SimPF (readNameFromRdata rd start) := by
+  unfold readNameFromRdata
+  split
+  · exact simPF_fail _
+  · split
+    · exact simPF_pure _
+    · exact simPF_fail _
+
+theorem simPF_aaaaPart (z : Zone.Zone) (hint : Hint) (owner : WName) (opt : Bool) (aaaa : Option Zone.Rrset) :
+    SimPF (Server.addAaaa z hint owner opt aaaa) := by
+  unfold Server.addAaaa
+  split
+  · cases aaaa with
+    | none => exact simPF_pure ()
+    | some r => exact simPF_bind (simPF_addRrs opt .additional hint owner _ _ _ _) (fun _ => simPF_pure ())
+  · exact simPF_pure ()
+
+theorem simPF_addrs (z : Zone.Zone) (hint : Hint) (owner : WName) (sbc opt : Bool) :
+    SimPF (addAdditionalAddresses z hint owner sbc opt) := by
+  unfold addAdditionalAddresses
+  split
+  · next a aaaa sos _ =>
+    cases a with
+    | none => exact simPF_aaaaPart z hint owner opt aaaa
+    | some r =>
+      refine simPF_bind (simPF_addRrs opt .additional hint owner _ _ _ _) (fun o => ?_)
+      cases o with
+      | none => exact simPF_pure ()
+      | some x => exact simPF_aaaaPart z _ owner opt aaaa
+  · exact simPF_pure ()
+  · exact simPF_pure ()
+  · exact simPF_panic
+
+theorem simPF_additionalLoop (z : Zone.Zone) (start : Nat) (hv : Option HV) (rds : List (List UInt8)) (idx : Nat) :
+    SimPF (Server.additionalLoop z start hv rds idx) := by
+  induction rds generalizing idx with
+  | nil => unfold Server.additionalLoop; exact simPF_pure ()
+  | cons rd rest ih =>
+    unfold Server.additionalLoop
+    exact simPF_bind (simPF_readName rd start) (fun n =>
+      simPF_bind (simPF_addrs z _ n false true) (fun _ => ih (idx + 1)))
+
+theorem simPF_additionalProcessing (z : Zone.Zone) (t : Nat) (s : Zone.Rrset) (hv : Option HV) :
+    SimPF (doAdditionalSectionProcessing z t s hv) := by
+  unfold doAdditionalSectionProcessing
+  split
+  · exact simPF_pure ()
+  · split
+    · exact simPF_additionalLoop z 0 hv s.rdatas 0
+    · split
+      · exact simPF_additionalLoop z 2 hv s.rdatas 0
+      · split
+        · exact simPF_additionalLoop z 6 hv s.rdatas 0
+        · exact simPF_pure ()
+
+theorem simPF_readSoaMinimum (rd : List UInt8) : SimPF (Server.readSoaMinimum rd) := by
+  unfold Server.readSoaMinimum
+  split
+  · split
+    · split
+      · exact simPF_fail _
+      · dsimp only
+        split
+        · exact simPF_pure _
+        · exact simPF_fail _
+    · exact simPF_fail _
+  · exact simPF_fail _
+
+theorem simPF_negativeSoa (z : Zone.Zone) : SimPF (addNegativeCachingSoa z) := by
+  unfold addNegativeCachingSoa
+  split
+  · exact simPF_fail _
+  · split
+    · exact simPF_fail _
+    · exact simPF_bind (simPF_readSoaMinimum _) (fun m => simPF_addRr1 .authority _ _ _ _ _ _)
+
+theorem simPF_classifyNs (child : WName) (rds : List (List UInt8)) (idx : Nat) :
+    SimPF (Server.classifyNs child rds idx) := by
+  induction rds generalizing idx with
+  | nil => unfold Server.classifyNs; exact simPF_pure _
+  | cons rd rest ih =>
+    unfold Server.classifyNs
+    refine simPF_bind (simPF_readName rd 0) (fun n => simPF_bind (ih (idx + 1)) (fun p => ?_))
+    obtain ⟨g, a⟩ := p
+    simp only []
+    split
+    · exact simPF_pure _
+    · exact simPF_pure _
+
+theorem simPF_glueLoop (z : Zone.Zone) (hv : HV) (opt : Bool) (l : List (Nat × WName)) :
+    SimPF (Server.glueLoop z hv opt l) := by
+  induction l with
+  | nil => unfold Server.glueLoop; exact simPF_pure ()
+  | cons p rest ih =>
+    unfold Server.glueLoop
+    exact simPF_bind (simPF_addrs z _ p.2 true opt) (fun _ => ih)
+
+theorem simPF_referral (z : Zone.Zone) (child : NameL.Name) (ns : Zone.Rrset) : SimPF (doReferral z child ns) := by
+  unfold doReferral
+  refine simPF_bind (simPF_addRrs false .authority .none _ _ _ _ _) (fun hv =>
+    simPF_bind (simPF_classifyNs _ ns.rdatas 0) (fun p => ?_))
+  obtain ⟨g, a⟩ := p
+  simp only []
+  exact simPF_bind (simPF_glueLoop z _ false g) (fun _ => simPF_glueLoop z _ true a)
+
+theorem simPF_followCname (z : Zone.Zone) (qname : WName) (qtype : Nat) :
+    ∀ (fuel : Nat) (cn : Zone.Rrset) (os : List WName), SimPF (Server.followCname z qname qtype fuel cn os) := by
+  intro fuel
+  induction fuel with
+  | zero => intro cn os; unfold Server.followCname; exact simPF_fail _
+  | succ f ih =>
+    intro cn os
+    rw [Server.followCname]
+    split
+    · exact simPF_fail _
+    · split
+      · split
+        · exact simPF_fail _
+        · refine simPF_bind (simPF_addRr1 .answer _ _ _ _ _ _) (fun _ => ?_)
+          split
+          · exact simPF_bind (simPF_addRrs false .answer _ _ _ _ _ _)
+              (fun hv => simPF_additionalProcessing z qtype _ hv)
+          · split
+            · exact ih _ _
+            · exact simPF_fail _
+          · exact simPF_referral z _ _
+          · exact simPF_negativeSoa z
+          · exact simPF_bind (simPF_setRcode _) (fun _ => simPF_negativeSoa z)
+          · exact simPF_pure ()
+          · exact simPF_pure ()
+          · exact simPF_panic
+      · exact simPF_fail _
+
+theorem simPF_answer (z : Zone.Zone) (qname : WName) (qtype : Nat) : SimPF (Server.answer z qname qtype) := by
+  unfold Server.answer
+  split
+  · exact simPF_bind (simPF_setAa true) (fun _ => simPF_bind (simPF_addRrs false .answer _ _ _ _ _ _)
+      (fun hv => simPF_additionalProcessing z qtype _ hv))
+  · unfold Server.doCname
+    exact simPF_bind (simPF_setAa true) (fun _ => simPF_followCname z qname qtype _ _ _)
+  · exact simPF_referral z _ _
+  · exact simPF_bind (simPF_setAa true) (fun _ => simPF_negativeSoa z)
+  · exact simPF_bind (simPF_setRcode _) (fun _ => simPF_bind (simPF_setAa true) (fun _ => simPF_negativeSoa z))
+  · exact simPF_panic
+  · exact simPF_panic
+  · exact simPF_panic
+
+theorem simPF_answerAnyLoop (z : Zone.Zone) (qname : WName) (rrsets : List Zone.Rrset) (n : Nat) :
+    SimPF (Server.answerAnyLoop z qname rrsets n) := by
+  induction rrsets generalizing n with
+  | nil => unfold Server.answerAnyLoop; exact simPF_pure _
+  | cons r rest ih =>
+    unfold Server.answerAnyLoop
+    exact simPF_bind (simPF_addRrs false .answer _ _ _ _ _ _) (fun _ => ih (n + 1))
+
+theorem simPF_answerAny (z : Zone.Zone) (qname : WName) : SimPF (Server.answerAny z qname) := by
+  unfold Server.answerAny
+  split
+  · refine simPF_bind (simPF_setAa true) (fun _ => simPF_bind (simPF_answerAnyLoop z qname _ 0) (fun n => ?_))
+    split
+    · exact simPF_negativeSoa z
+    · exact simPF_pure ()
+  · exact simPF_referral z _ _
+  · exact simPF_bind (simPF_setRcode _) (fun _ => simPF_bind (simPF_setAa true) (fun _ => simPF_negativeSoa z))
+  · exact simPF_panic
+  · exact simPF_panic
+  · exact simPF_panic
+
+theorem simPF_inner (z : Zone.Zone) (qname : WName) (qtype : Nat) : SimPF (inner z qname qtype) := by
+  unfold ServerAnswer.inner
+  split
+  · exact simPF_answerAny z qname
+  · exact simPF_answer z qname qtype
+
+/-- **the answering logic does not depend on the limit**: if, with `d` more octets of room, it
+    succeeds with every call accepted (the complete answer: nothing failed, nothing optional was
+    dropped) and the result fits the smaller room, then with the smaller room it makes the same
+    calls with the same results — the same log, hence the same RCODE, AA and sections — and
+    leaves the same octets. Over TCP and UDP (after `set_limit`) the writers differ exactly by
+    such a `d`: this is "the UDP response equals the TCP response whenever the latter fits". -/
+theorem inner_limit_independent (z : Zone.Zone) (qname : WName) (qtype : Nat) (d : Nat) (w : State) (pt : PS)
+    (h : inner z qname qtype ⟨lift d w, []⟩ = (.ok (), pt)) (hok : ∀ e ∈ pt.log, OkEv e)
+    (hc : pt.w.cursor ≤ w.available) :
+    ∃ ps', inner z qname qtype ⟨w, []⟩ = (.ok (), ps') ∧ ps'.log = pt.log ∧ pt.w = lift d ps'.w := by
+  obtain ⟨ps', h1, h2⟩ := (simPF_inner z qname qtype).1 d w [] () pt h hok hc
+  exact ⟨ps', h1, by rw [h2], by rw [h2]⟩
+
 end QV.ServerAnswer
